@@ -58,7 +58,7 @@ def other_file_position(path, loc):
             _other[path] = None
         else:
             try:
-                _other[path] = (set(layout.name_token_ordinals(src)), src.splitlines())
+                _other[path] = (set(layout.name_token_ordinals(src)), core.plines(src))
             except Exception:
                 _other[path] = None
     info = _other[path]
@@ -86,7 +86,7 @@ def check_source(sh, src, filename, origin, nloc, rnd):
     except Exception as e:
         sh.count('skipped:analysis-crash-%s' % type(e).__name__)
         return None
-    lines = src.splitlines()
+    lines = core.plines(src)
     # statements per line, to mark shared lines
     per_line = {}
     for n in ast.walk(s.tree):
@@ -268,7 +268,9 @@ def shape_strategy():
             else:
                 out.append(s)
                 i += 1
-        return '\n'.join(out) + '\n'
+            if draw(st.integers(0, 9)) == 0:
+                out.append(draw(st.sampled_from(['\x0c', '# page\x0cbreak', '\x0c# x', "ff = 'a\x0cb'"])))     # a form feed is no line break
+        return draw(st.sampled_from(['\n', '\n', '\n', '\r\n'])).join(out) + '\n'
     return module()
 
 
@@ -327,7 +329,19 @@ def w_shapes(job):
         bad = check_source(sh, src, fn, 'shape', 10 ** 6, random.Random(0))
         if bad and bad[0] not in sh.excluded:
             raise Found(bad[0], {'src': src, 'filename': fn}, bad[1])
-    core.hyp_search(sh, prop, shape_strategy(), seed, n, shrink=True, max_rounds=6)
+    def minimise(f):
+        def still(cand):
+            try:
+                ast.parse(cand)
+            except SyntaxError:
+                return False
+            b = check_source(Shard(), cand, fn, 'min', 10 ** 6, random.Random(0))
+            return bool(b) and b[0] == f.signature
+        small = core.minimise_lines(f.case['src'], still, max_steps=60)
+        b = check_source(Shard(), small, fn, 'min', 10 ** 6, random.Random(0))
+        return Found(f.signature, {'src': small, 'filename': fn}, b[1] if b else f.detail)
+    # Hypothesis' own shrinker re-analyses every candidate and can spend its full five minutes per signature: line ddmin instead
+    core.hyp_search(sh, prop, shape_strategy(), seed, n, shrink=False, max_rounds=6, minimise=minimise, budget_s=60)
     return sh.result()
 
 
@@ -398,7 +412,7 @@ def w_crossfile(job):
                                 txt_ok = True
                                 if not bad and tuple(e['loc']) != (1, 0):
                                     l, c = e['loc']
-                                    tl = CROSS_TARGET.splitlines()[l - 1]
+                                    tl = core.plines(CROSS_TARGET)[l - 1]
                                     txt_ok = tl[c:c + len(name)] == name or tl[c:c + 4] == 'self'
                                 if bad or not txt_ok:
                                     sh.violation('location-position-in-other-file:%s' % (bad or 'wrong-identifier'),
